@@ -474,3 +474,31 @@ pub fn scan(chk: &dyn Check, seed: u64, n: u64, tier: Tier) {
         println!("{:45} x{:<6} first run {:<5} {}", sig, cnt, i, d);
     }
 }
+
+
+/// Determinism witness: per-run event-log fingerprints and violation signatures
+/// for run indices 0..n, printed in index order (the runs themselves execute on
+/// `jobs` worker threads).
+pub fn digest(chk: &dyn Check, seed: u64, n: u64, jobs: usize, tier: Tier) {
+    let next = AtomicU64::new(0);
+    let res: Mutex<BTreeMap<u64, String>> = Mutex::new(BTreeMap::new());
+    std::thread::scope(|s| {
+        for _ in 0..jobs.max(1) {
+            s.spawn(|| loop {
+                let i = next.fetch_add(1, Ordering::SeqCst);
+                if i >= n {
+                    break;
+                }
+                let rs = run_seed(seed, chk.id(), i);
+                let case = chk.generate(rs, i, tier);
+                let out = chk.execute(&case);
+                let sigs: Vec<String> = out.all.iter().map(|v| v.signature()).collect();
+                let case_fp = mix(&[crate::rng::str_hash(&case.to_json().to_string())]);
+                res.lock().unwrap().insert(i, format!("{:016x} {:016x} {}", case_fp, out.fp, sigs.join(",")));
+            });
+        }
+    });
+    for (i, l) in res.into_inner().unwrap() {
+        println!("{} {} {}", chk.id(), i, l);
+    }
+}
